@@ -1,7 +1,9 @@
 package gosx
 
 import (
+	"encoding/json"
 	"fmt"
+	"strings"
 	"go/types"
 )
 
@@ -120,6 +122,14 @@ func (e *Engine) registerIntrinsics() {
 			unsupported("tokenize needs the native helper")
 		}
 		fname, src := str(a[0], "tokenize filename"), str(a[1], "tokenize of symbolic source text")
+		if strings.HasPrefix(src, TokenMarker) {
+			var spec TokenSpec
+			if err := json.Unmarshal([]byte(src[len(TokenMarker):]), &spec); err != nil {
+				panic("bad token spec: " + err.Error())
+			}
+			fr.ex.used("tokenize→symbolic token list")
+			return tuple{fr.ex.symbolicTokens(fname, spec), iface{}}
+		}
 		fr.ex.used("tokenize→native")
 		r, err := e.Native.Tokenize(fname, src)
 		if err != nil {
